@@ -98,6 +98,71 @@ def gen_cond(rng, names, depth=0):
 
 
 # ------------------------------------------------------------------ generator
+def blank_recipe(nm):
+    return {"root": False, "classes": [], "env": [], "private": [], "meta": [], "deps": [], "checkout": None, "checkoutVars": [],
+            "build": "%s-b0" % nm, "package": "%s-p0" % nm, "inc": None, "buildVars": [], "buildVarsWeak": [], "packageVars": [],
+            "packageVarsWeak": [], "buildTools": [], "buildToolsWeak": [], "packageTools": [], "packageToolsWeak": [],
+            "provideVars": [], "provideTools": {}, "provideDeps": [], "provideSandbox": None}
+
+
+def inject_touch_motif(rng, recipes, names):
+    """a pass-through recipe (reads nothing itself) above a hub that reads one
+    variable; the hub is calculated first, then the pass-through recipe is reached
+    under an equal and under a different value of that variable"""
+    hub = rng.choice(names[-2:])
+    var = rng.choice(GVARS)
+    h = recipes[hub]
+    k = rng.choice(["buildVars", "packageVars"])
+    h[k] = sorted(set(h[k]) | {var})
+    v1, v2 = rng.sample(VALS, 2)
+    dep = lambda n, env: {"name": n, "if": None, "env": env, "use": None, "forward": False, "inherit": True}
+    w, m1, m2 = "r93", "r91", "r92"
+    recipes[w] = blank_recipe(w)
+    recipes[w]["deps"] = [dep(hub, [])]
+    recipes[m1] = blank_recipe(m1)
+    recipes[m1]["deps"] = [dep(w, [[var, t_lit(v1)]])]
+    recipes[m2] = blank_recipe(m2)
+    recipes[m2]["deps"] = [dep(w, [[var, t_lit(v2)]])]
+    r0 = recipes[names[0]]
+    r0["deps"] = [dep(hub, [[var, t_lit(v1)]])] + [d for d in r0["deps"] if d["name"] != hub] + [dep(m1, []), dep(m2, [])]
+    r0["provideDeps"] = [x for x in r0["provideDeps"] if x != hub]
+
+
+def inject_variant_motif(rng, recipes, names, what):
+    """one user recipe reached below two providers of the same tool name (or two
+    sandboxes, and no sandbox) with otherwise equal inputs"""
+    base = 94 if what == "tools" else 84
+    user, p1, p2, a, b, c = ["r%d" % (base + i) for i in range(6)]
+    dep = lambda n, **kw: dict({"name": n, "if": None, "env": [], "use": None, "forward": False, "inherit": True}, **kw)
+    for n in (user, p1, p2, a, b, c):
+        recipes[n] = blank_recipe(n)
+    u = recipes[user]
+    u["buildVars"] = [rng.choice(GVARS)]
+    if rng.random() < 0.5:
+        u["deps"] = [dep(rng.choice(names[-2:]))]
+    same = rng.random() < 0.25
+    if what == "tools":
+        u[rng.choice(["buildTools", "packageTools", "buildToolsWeak"])] = ["ta"]
+        recipes[p1]["provideTools"] = {"ta": {"path": t_lit("bin1"), "libs": [], "env": []}}
+        recipes[p2]["provideTools"] = {"ta": {"path": t_lit("bin1" if same else "bin2"), "libs": [], "env": []}}
+        use = ["tools"]
+    else:
+        u["buildVars"] = sorted(set(u["buildVars"]) | ({"SB"} if rng.random() < 0.5 else set()))
+        recipes[p1]["provideSandbox"] = {"paths": ["/bin"], "env": [["SB", t_lit("1")]] if rng.random() < 0.5 else []}
+        recipes[p2]["provideSandbox"] = {"paths": ["/bin"] if same else ["/usr/bin"], "env": []}
+        use = ["sandbox"]
+    recipes[a]["deps"] = [dep(p1, use=use, forward=True), dep(user)]
+    recipes[b]["deps"] = [dep(p2, use=use, forward=True), dep(user)]
+    parents = [a, b]
+    if what == "sandbox":
+        recipes[c]["deps"] = [dep(user)]
+        parents.append(c)
+    else:
+        del recipes[c]
+    rng.shuffle(parents)
+    recipes[names[0]]["deps"] += [dep(x) for x in parents]
+
+
 def gen_desc(rng, n=None):
     n = n or rng.randint(5, 9)
     names = ["r%d" % i for i in range(n)]
@@ -198,6 +263,12 @@ def gen_desc(rng, n=None):
         if rng.random() < 0.15:
             r["inc"] = "inc-%s-0" % nm
         recipes[nm] = r
+    if rng.random() < 0.45:
+        inject_touch_motif(rng, recipes, names)
+    if rng.random() < 0.3:
+        inject_variant_motif(rng, recipes, names, "tools")
+    if rng.random() < 0.3:
+        inject_variant_motif(rng, recipes, names, "sandbox")
     desc = {"recipes": recipes, "classes": classes,
             "default_env": [[v, rng.choice(VALS)] for v in GVARS[:2]] + ([["VC", rng.choice(VALS)]] if rng.random() < 0.5 else []),
             "opt": None if rng.random() < 0.5 else [["VC", rng.choice(VALS)]],     # optional include default.yaml -> opt.yaml
@@ -556,7 +627,13 @@ def judge_step(wd, step, res, dev):
     # Path query answers enumerate graph *nodes* (package identity = the shared
     # CorePackage); without sharing there are more nodes by construction, so the
     # answers are compared between the on-disk cache configurations only.
-    noq = lambda ds: [x for x in ds if not x[1].startswith("query:")]
+    # Weak variables (…VarsWeak) are by definition not part of a package's identity:
+    # variants that differ only in them are one package and share the value of the
+    # variant calculated first; the digest environments are compared, the weak rest is not.
+    def noq(ds):
+        dset = set(ds)
+        return [x for x in ds if not x[1].startswith("query:")
+                and not (x[1].endswith(".env") and (x[0], x[1][:-4] + ".digestEnv") not in dset)]
     diffs = noq(diff_views(vc, view(res["PLAIN"]), dev))
     if diffs:
         nm = res.get("NOMERGE")
